@@ -96,6 +96,8 @@ def c03(run, tier):
     run.absorb(rep, ORDER_ASPECTS)
     fixed_two_steps(run, ORDER_ASPECTS)
     scale_family(run, "docs", "large-documents")
+    # namespace nodes of start tags that declare many prefixes, the xml prefix explicitly among them: all distinct, each at its own position
+    scale_family(run, "nsdecl", "namespace-declarations")
 
 
 def c18(run, tier):
@@ -166,6 +168,23 @@ def c10(run, tier):
         from infra import Infra
         raise Infra("store-record failed: " + p.stderr[-1000:])
     run.judge_trace(t2, "Trace_Store", "random-streams", "C10.store", timeout=Q(tier, 600, 3000))
+    # the same with 8 goroutines building trees at once (race-built): a tree holds its own stream's nodes and namespaces only
+    t2c = os.path.join(run.work, "store-concurrent.ndjson")
+    p = run.harness_cmd(["store-record", "-n", str(Q(tier, 400, 3000)), "-sub", "7", "-out", t2c], "store-record-concurrent", race=True,
+                        env={"VERIF_PARSE_CONC": "8", "GORACE": "halt_on_error=0 atexit_sleep_ms=0 exitcode=0"})
+    if "DATA RACE" in p.stderr or "fatal error: concurrent map" in p.stderr:
+        keep = os.path.join(run.root, "replays", run.pid)
+        os.makedirs(keep, exist_ok=True)
+        dst = os.path.join(keep, "race-store-concurrent.txt")
+        open(dst, "w").write(p.stderr[-20000:])
+        run.violations.append({"aspect": "race", "fam": "C10.store", "text": "", "detail": "Go race detector while 8 goroutines build trees at once: " +
+                               " | ".join(p.stderr.splitlines()[:8])[:400], "replay": dst})
+        run.viol_total = getattr(run, "viol_total", 0) + 1
+    if p.returncode != 0 and "fatal error: concurrent map" not in p.stderr:
+        from infra import Infra
+        raise Infra("store-record (concurrent) failed: " + p.stderr[-1000:])
+    if p.returncode == 0:
+        run.judge_trace(t2c, "Trace_Store", "concurrent-streams", "C10.store", timeout=Q(tier, 600, 3000))
     # stack space: long flat streams in a child process, call depth sampled inside Pull()
     t3 = os.path.join(run.work, "flat.ndjson")
     p = run.harness_cmd(["flat", "-n", str(Q(tier, 100000, 1000000)), "-out", t3], "flat", timeout=600)
@@ -249,6 +268,10 @@ def c13(run, tier):
     scale_family(run, "docs", "large-documents")
     # ... and on sums of decimal fractions and of numbers of very different magnitude: 60 / 400 executions, one bit pattern
     scale_family(run, "repeat", "repeated-evaluation")
+    # what Unmarshal fills depends on the target type and the nodes, not on the calls made before: all calls of MC_Unmarshal in one
+    # process (among them two declared struct types of the same name with different tags, used one after the other)
+    rep = run.tlc_gen_replay("MC_Unmarshal", run.cfg("MC_Unmarshal.cfg", {}, "gen.unmarshal.cfg"), "unmarshal-history", timeout=600, harness_args=["-workers", "1"])
+    run.absorb(rep, VALUE_ASPECTS)
 
 
 def session_replay(run, path):
@@ -560,7 +583,9 @@ def c17(run, tier):
 def c09(run, tier):
     import os
     runs = [("documents", {"MaxItems": Q(tier, 3, 4), "FullProduct": "FALSE", "ItemPool": '"all"'}),
-            ("nesting", {"MaxItems": Q(tier, 4, 5), "FullProduct": "FALSE", "ItemPool": '"starts"'})]
+            ("nesting", {"MaxItems": Q(tier, 4, 5), "FullProduct": "FALSE", "ItemPool": '"starts"'}),
+            # several text nodes per document, each written in pieces (text, CDATA section, text): one node each, with its own characters
+            ("text-runs", {"MaxItems": Q(tier, 5, 6), "FullProduct": "FALSE", "ItemPool": '"runs"'})]
     if tier != "quick":
         runs.append(("product", {"MaxItems": 3, "FullProduct": "TRUE", "ItemPool": '"all"'}))
     for label, ov in runs:
